@@ -43,6 +43,20 @@ def _pair_covers(w, recv_name):
     return False
 
 
+def _writes_through(la, t, protected, setattr_sites, lock, depth=0):
+    """does t (a method that takes the lock) write a protected field through a helper it calls under the lock?"""
+    if depth > 2:
+        return False
+    for c in ast.walk(t.node):
+        if isinstance(c, ast.Call) and isinstance(c.func, ast.Attribute) and isinstance(c.func.value, ast.Name) and c.func.value.id == "self":
+            for g in la.res.resolve_call(t, c):
+                if g.cls in la.family and g is not t:
+                    if any(is_self_attr(x) and x.attr in protected and isinstance(x.ctx, (ast.Store, ast.Del)) for x in ast.walk(g.node)) or any(m2 is g for m2, _ in setattr_sites) \
+                            or _writes_through(la, g, protected, setattr_sites, lock, depth + 1):
+                        return True
+    return False
+
+
 def run(p, led, tier):
     res = Resolver(p)
     store = p.cls("ATP_Store", "operon_ai/state/metabolism.py")
@@ -107,6 +121,23 @@ def run(p, led, tier):
             for t in tg:
                 if is_self_attr(t) and (lock in held_at(n, la.locks) or m.key in held_entry) and m.name != "__init__":
                     protected.add(t.attr)
+    # writes through `setattr(self, <name from a table>, v)` (a per-currency table of attribute names): the names such a
+    # table can hold are the string constants of the module's literal tables that name instance attributes of the store
+    init_attrs = {t.attr for n in ast.walk(store.methods["__init__"].node) if isinstance(n, (ast.Assign, ast.AnnAssign, ast.AugAssign))
+                  for t in (n.targets if isinstance(n, ast.Assign) else [n.target]) if is_self_attr(t)} if "__init__" in store.methods else set()
+    table_names = set()
+    for st_ in store.module.tree.body:
+        v_ = getattr(st_, "value", None)
+        if isinstance(st_, (ast.Assign, ast.AnnAssign)) and isinstance(v_, (ast.Dict, ast.Tuple, ast.List)):
+            table_names |= {c.value for c in ast.walk(v_) if isinstance(c, ast.Constant) and isinstance(c.value, str) and c.value in init_attrs}
+    SETATTR_SITES = []
+    for m in la.methods():
+        for n in walk_no_nested(m.node):
+            if isinstance(n, ast.Call) and isinstance(n.func, ast.Name) and n.func.id == "setattr" and len(n.args) == 3 and isinstance(n.args[0], ast.Name) and n.args[0].id == "self" \
+                    and not isinstance(n.args[1], ast.Constant) and m.name != "__init__":
+                SETATTR_SITES.append((m, n))
+                if lock in held_at(n, la.locks) or m.key in held_entry:
+                    protected |= table_names
     CORE = CORE_PUBLIC | {f for f in (accessor_field(p, store, "get_debt"), accessor_field(p, store, "get_state")) if f}
     if len(CORE) < 5 or not CORE <= protected:
         raise AnchorError(f"protected-field discovery lost core fields: {sorted(CORE - protected)} (core = balances + the fields behind get_debt/get_state)")
@@ -126,6 +157,10 @@ def run(p, led, tier):
                     writes.append(n)
                 else:
                     reads.append(n)
+        # a table-driven write: setattr(self, <table name>, v) writes one of the table's attributes
+        for m2_, n2_ in SETATTR_SITES:
+            if m2_ is m and table_names & protected:
+                writes.append(n2_)
         # mutating calls on protected containers
         for f in protected:
             for k, n in attr_writes(m.node, f, "self"):
@@ -157,6 +192,26 @@ def run(p, led, tier):
             else:
                 led.fail("C05-R2", key, where(m, regs[1]), f"{len(regs)} separate regions of the store lock in one operation: test and update can be separated by another thread")
 
+    # ---- R2c an operation is one critical section also when its body lives in helpers: a public operation that (outside any
+    # region of its own) calls two or more same-instance helpers each of which takes the store lock itself is split in two
+    LEDGER = set(CORE_PUBLIC) | ({accessor_field(p, store, "get_debt")} - {None})          # balances and debt: what a spend / regeneration must change in one step
+    for m in la.methods():
+        if m.name.startswith("_") or m.name in EXCLUDED or m.name == "transfer_to":      # a transfer is two steps by nature (two stores); its steps are judged by R3 / C04
+            continue
+        own = [w for w, a in regions(m, la.locks) if a == lock and any(is_self_attr(x) and x.attr in LEDGER and isinstance(x.ctx, (ast.Store, ast.Del)) for st0 in w.body for x in ast.walk(st0))]
+        taking = []
+        for st in walk_no_nested(m.node):
+            if isinstance(st, ast.Call) and isinstance(st.func, ast.Attribute) and isinstance(st.func.value, ast.Name) and st.func.value.id == "self" and lock not in held_at(st, la.locks):
+                for t in res.resolve_call(m, st):
+                    if t.cls in la.family and lock in la.may_acquire(t) and any(is_self_attr(x) and x.attr in LEDGER and isinstance(x.ctx, (ast.Store, ast.Del)) for x in ast.walk(t.node)) | bool([1 for m2_, _ in SETATTR_SITES if m2_ is t]) | _writes_through(la, t, LEDGER, SETATTR_SITES, lock):
+                        taking.append((st, t))
+        sections = len(own) + len(taking)
+        if taking and sections > 1:
+            st, t = taking[1] if len(taking) > 1 else taking[0]
+            led.fail("C05-R2", f"{m.qual} ▸ one critical section (helpers included)", where(m, st),
+                     f"the operation is made of {sections} separate critical sections ({', '.join(sorted({x.name for _, x in taking}))} each take and drop the store lock): another thread's spend or transfer "
+                     "can run between them, and the result is not that of any sequential order",
+                     witness="store in debt: regenerate(10) pays the debt, drops the lock, a concurrent consume(allow_debt=True) borrows again, then the remainder is credited")
     # ---- R3 nothing under the lock (re)acquires a store lock
     # (a) directly: a with statement that takes another instance's lock while this one's is held (in the same statement or
     #     an enclosing one) — unless both are taken through the id()-ordered pair idiom
